@@ -151,6 +151,7 @@ type c20FactKind struct {
 	StrFields []string       `json:"strFields"`
 	SymFields []string       `json:"symFields"`
 	Steps     []c20FactStep  `json:"steps"`
+	ValueRecv bool           `json:"valueRecv"`
 }
 type c20Facts struct {
 	Kinds []c20FactKind `json:"kinds"`
@@ -218,6 +219,59 @@ func (f *c20Facts) tolerant(kind, field string) bool {
 	return false
 }
 
+// does (*K)(nil).Accept(v) dereference nil? (only used to pick a varied sample; the expectation comes from the model)
+func (f *c20Facts) nilRecvPanics(kind string) bool {
+	k := f.by[kind]
+	if k == nil {
+		return false
+	}
+	if k.ValueRecv {
+		return true
+	}
+	if k.NilSafe {
+		return false
+	}
+	for _, s := range k.Steps {
+		if s.Op == "announce" || s.Op == "forward" {
+			return true
+		}
+	}
+	return false
+}
+
+// a sample of typed nil pointers for an interface slot: one whose Accept tolerates a nil receiver, one
+// whose Accept reads a field, one with a value receiver — where the slot's type admits them
+func (f *c20Facts) typedNilSample(et reflect.Type) []string {
+	var harmless, reads, byValue string
+	for _, k := range c20TypedNilCandidates(et) {
+		fk := f.by[k]
+		if fk == nil {
+			continue
+		}
+		switch {
+		case fk.ValueRecv:
+			if byValue == "" {
+				byValue = k
+			}
+		case f.nilRecvPanics(k):
+			if reads == "" {
+				reads = k
+			}
+		default:
+			if harmless == "" || fk.NilSafe && !f.by[harmless].NilSafe {
+				harmless = k
+			}
+		}
+	}
+	var res []string
+	for _, k := range []string{harmless, reads, byValue} {
+		if k != "" {
+			res = append(res, k)
+		}
+	}
+	return res
+}
+
 // ---------------------------------------------------------------------- query text generator
 
 const c20DT1 = "datetime(2020-01-01T00:00:00Z)"
@@ -258,7 +312,9 @@ var c20Atoms = []string{
 }
 
 var c20Sorts = []string{``, ``, `sort by name`, `sort by n desc`, `sort by name asc, n desc`, `sort by tags.k`, `sort by boss.name`,
-	`sort by at, f, flag`, `sort by id`, `sort by meta.x desc, id`, `sort by boss, name`}
+	`sort by at, f, flag`, `sort by id`, `sort by meta.x desc, id`, `sort by boss, name`,
+	// more sort fields than any scanner looks at: the last ones are still referenced
+	`sort by id, name, n, f, flag, at`, `sort by id, id desc, id, id, id, id, tags.k, kids.label desc`}
 var c20Pages = []string{``, ``, ``, `skip 2`, `limit 5`, `limit none`, `skip 1 limit none`, `skip 0 limit 1`}
 
 func c20RandBool(r *rng, depth int) string {
@@ -305,6 +361,9 @@ func (e *c20Emitter) line(tag string, mask uint64, query string, toks []string) 
 	q := "-"
 	if tag != "s" {
 		q = c20Name(query)
+	}
+	if tag == "a" && e.r != nil {
+		// keep the quick tier small: the same recipe with several assignments
 	}
 	l := fmt.Sprintf("%s %d %s %s %s %s", tag, mask, c20Names(c20Maps), c20Names(st.pub), q, strings.Join(toks, " "))
 	if e.seen[l] {
@@ -396,6 +455,8 @@ func (e *c20Emitter) parsed(query string, cap int, untypedToo bool) {
 		ut, ustrs, _ = c20WalkNode(n, nil)
 		strs = append(strs, ustrs...)
 		toks = append(append(toks, "//"), ut...)
+		// the symbol types the text is parsed against (input of the model of the typing transformation)
+		toks = append(append(toks, "//"), c20SymTabFor(base.a, ut, ustrs)...)
 	}
 	for _, m := range e.masks(strs, cap) {
 		e.line("p", m, query, toks)
@@ -508,6 +569,8 @@ func (s *c20Synth) build(kind, field string, sub []string, fill string, depth in
 	silent := ""
 	for _, f := range c20Fields(c20Registry[kind]) {
 		switch f.class {
+		case c20Enum:
+			strs = append(strs, [2]string{f.name, "\x00"})
 		case c20Str:
 			switch {
 			case s.facts.isSym(kind, f.name) && s.facts.announced(kind, f.name):
@@ -705,6 +768,22 @@ func (s *c20Synth) focused() {
 					s.e.line("s", 0xffff&^(1<<c20ExplicitElemBit), "", tree)
 				}
 			}
+			// typed nil pointers in this position (interface-typed fields and slice elements), a nil slice element
+			if s.facts.by[kind] != nil {
+				var subs [][]string
+				for _, k := range s.facts.typedNilSample(c20ElemType(f)) {
+					subs = append(subs, []string{"T", k})
+				}
+				if f.class == c20Many {
+					subs = append(subs, []string{"Z"})
+				}
+				for _, sub := range subs {
+					if tree := s.wrap(kind, s.buildNamed(kind, f.name, sub, fill, fill, 0), fill, fill); tree != nil {
+						s.e.line("s", 0xffff&^(1<<c20ExplicitElemBit), "", tree)
+						s.e.line("s", 0xffff&^1&^(1<<c20ExplicitElemBit), "", tree)
+					}
+				}
+			}
 		}
 		// the kind's own symbol
 		if sf, ok := s.hasAnnouncedSym(kind); ok {
@@ -771,6 +850,8 @@ func (s *c20Synth) random(et reflect.Type, depth int, r *rng, syms *[]string) []
 	before := len(*syms)
 	for _, f := range c20Fields(c20Registry[kind]) {
 		switch f.class {
+		case c20Enum:
+			strs = append(strs, [2]string{f.name, string([]byte{byte(r.intn(4))})})
 		case c20Str:
 			switch {
 			case s.facts.isSym(kind, f.name) && s.facts.announced(kind, f.name):
@@ -786,6 +867,8 @@ func (s *c20Synth) random(et reflect.Type, depth int, r *rng, syms *[]string) []
 		case c20One:
 			labels = append(labels, f.name)
 			switch {
+			case r.chance(1, 40) && len(c20TypedNilCandidates(f.typ)) > 0:
+				kids = append(kids, []string{"T", pick(r, c20TypedNilCandidates(f.typ))})
 			case s.facts.tolerant(kind, f.name) && r.chance(1, 3):
 				kids = append(kids, []string{"Z"})
 			case silentIdx >= 0 && len(*syms) == before:
@@ -807,7 +890,14 @@ func (s *c20Synth) random(et reflect.Type, depth int, r *rng, syms *[]string) []
 			}
 			for i := 0; i < n; i++ {
 				labels = append(labels, f.name)
-				kids = append(kids, s.random(f.typ.Elem(), depth-1, r, syms))
+				switch {
+				case r.chance(1, 40):
+					kids = append(kids, []string{"Z"})
+				case r.chance(1, 40) && len(c20TypedNilCandidates(f.typ.Elem())) > 0:
+					kids = append(kids, []string{"T", pick(r, c20TypedNilCandidates(f.typ.Elem()))})
+				default:
+					kids = append(kids, s.random(f.typ.Elem(), depth-1, r, syms))
+				}
 			}
 		}
 	}
@@ -873,6 +963,8 @@ func c20Gen(tier string, seed uint64, out *bufio.Writer) {
 			}
 		}
 	}
+	// 2b. queries assembled through the exported API (SetPredicate, AdoptSortFields, NewAndExprNode, …)
+	e.recipes(thorough)
 	// 3. random compositions
 	nParsed, nSynth := 700, 500
 	depthP, depthS := 3, 4
@@ -908,6 +1000,7 @@ type c20ParseMemo struct {
 	q       ast.Query
 	err     error
 	untyped string
+	symtab  string
 }
 
 var c20LastParse c20ParseMemo
@@ -928,11 +1021,18 @@ func c20Exec(line string) string {
 		return "cfg-mismatch " + c20Names(st.pub)
 	}
 	toks := f[5:]
-	var srcToks []string
+	var srcToks, tabToks []string
 	for i, t := range toks {
 		if t == "//" {
 			srcToks = toks[i+1:]
 			toks = toks[:i]
+			break
+		}
+	}
+	for i, t := range srcToks {
+		if t == "//" {
+			tabToks = srcToks[i+1:]
+			srcToks = srcToks[:i]
 			break
 		}
 	}
@@ -951,8 +1051,9 @@ func c20Exec(line string) string {
 			c20LastParse.q, c20LastParse.err = q, err
 			if err == nil && text != "" {
 				if n, uerr := c20UntypedTree(text); uerr == nil {
-					ut, _, _ := c20WalkNode(n, nil)
+					ut, ustrs, _ := c20WalkNode(n, nil)
 					c20LastParse.untyped = strings.Join(ut, " ")
+					c20LastParse.symtab = strings.Join(c20SymTabFor(st.a, ut, ustrs), " ")
 				} else {
 					c20LastParse.untyped = "parse-error"
 				}
@@ -968,6 +1069,9 @@ func c20Exec(line string) string {
 		if srcToks != nil && c20LastParse.untyped != strings.Join(srcToks, " ") {
 			return "tree-changed"
 		}
+		if tabToks != nil && c20LastParse.symtab != strings.Join(tabToks, " ") {
+			return "symtab-changed"
+		}
 	case "u":
 		text, err := c20UnName(f[4])
 		if err != nil {
@@ -978,6 +1082,16 @@ func c20Exec(line string) string {
 			return "parse-error"
 		}
 		root = n
+	case "a":
+		recipe, err := c20UnName(f[4])
+		if err != nil {
+			return "bad-case"
+		}
+		q, err := c20RunRecipe(st, recipe)
+		if err != nil {
+			return "unbuildable " + strings.ReplaceAll(err.Error(), " ", "_")
+		}
+		root = q
 	case "s":
 		pos := 0
 		v, err := c20Build(toks, &pos)
@@ -1033,17 +1147,17 @@ func c20Exec(line string) string {
 		verr = boltz.ValidateSymbolsArePublic(query, st.a)
 		return false
 	}()
-	if vpanic != panicked {
-		return fmt.Sprintf("panic-mismatch validate=%v accept=%v", vpanic, panicked)
-	}
+	// if validation returns although the traversal (recording visitor) dereferences nil, its verdict is reported with
+	// what was visited up to that point: the specification then judges "returned without having seen every symbol"
 	if vpanic {
 		return "panic"
 	}
+	api := c20ApiObservations(query, toks)
 	if verr == nil {
-		return "ok v=" + c20Names(rec.syms)
+		return "ok v=" + c20Names(rec.syms) + api
 	}
 	if use, ok := verr.(ast.UnknownSymbolError); ok {
-		return "err " + c20Name(use.Symbol) + " v=" + c20Names(rec.syms)
+		return "err " + c20Name(use.Symbol) + " v=" + c20Names(rec.syms) + api
 	}
-	return "err-other v=" + c20Names(rec.syms)
+	return "err-other v=" + c20Names(rec.syms) + api
 }
